@@ -119,6 +119,11 @@ int main(void)
 			sscanf(line, "%*s %lld %lld %lld", &a, &b, &c);
 			err = ext2fs_punch(fs, (ext2_ino_t) a, NULL, NULL, b, c < 0 ? ~0ULL : (blk64_t) c);
 			printf("P %ld\n", (long) err);
+		} else if (!strcmp(cmd, "FA")) {
+			/* preallocation as debugfs "fallocate" does it: logical blocks b..c of inode a */
+			sscanf(line, "%*s %lld %lld %lld", &a, &b, &c);
+			err = ext2fs_fallocate(fs, EXT2_FALLOCATE_INIT_BEYOND_EOF, (ext2_ino_t) a, NULL, ~0ULL, (blk64_t) b, (blk64_t) (c - b + 1));
+			printf("FA %ld\n", (long) err);
 		} else if (!strcmp(cmd, "CLOSE")) {
 			err = ext2fs_close(fs); fs = 0;
 			printf("CLOSE %ld\n", (long) err);
